@@ -62,6 +62,10 @@ void lp_variable_order_reverse(lp_variable_order_t* var_order) {
       vars[first] = vars[last];
       vars[last] = tmp;
     }
+    // the positions have changed, keep the variable -> index map in sync
+    for (first = 0; first < size; ++ first) {
+      var_order->list.var_to_index_map[vars[first]] = first;
+    }
   }
 }
 
